@@ -363,3 +363,87 @@ def _rename_inner(x, pi):
         ren.append({"kind": "outputs", "map": om})
     y["renames"] = ren
     return y
+
+
+# ------------------------------------------------------------------------------------
+# rich programs for the event-stream properties (C12, C13): nesting incl. sibling wrappers, map, cache, failures
+# ------------------------------------------------------------------------------------
+
+
+@st.composite
+def multi_nest(draw, topo):
+    """Wrap 2-3 disjoint intervals of the topological order as sibling graph nodes w0, w1, ... (no renames)."""
+    n = len(topo)
+    k = draw(st.integers(2, 3))
+    cuts = sorted(draw(st.lists(st.integers(0, n), min_size=2 * k, max_size=2 * k)))
+    outer = []
+    pos = 0
+    wi = 0
+    wrapper_graph = {}
+    for j in range(k):
+        a, b = cuts[2 * j], cuts[2 * j + 1]
+        a = max(a, pos)
+        if b <= a:
+            continue
+        outer += [dict(x) for x in topo[pos:a]]
+        S = topo[a:b]
+        sprod = {o for x in S for o in x["outs"]}
+        inputs = list(dict.fromkeys(p for x in S for p in x["params"] if p not in sprod))
+        name = f"w{wi}"
+        wi += 1
+        outer.append({"k": "graph", "name": name, "graph": {"name": name, "nodes": [dict(x) for x in S]}, "flat_inputs": inputs,
+                      "flat_outputs": [o for x in S for o in x["outs"]], "renames": []})
+        wrapper_graph[name] = name
+        pos = b
+    outer += [dict(x) for x in topo[pos:]]
+    return outer, wrapper_graph
+
+
+@st.composite
+def rich_case(draw, tier="quick"):
+    kind = draw(st.sampled_from(["g1", "g1nest", "g1multi", "g2", "loop"]))
+    c = {"kind": kind, "wrapper_graph": {}}
+    if kind in ("g1", "g1nest", "g1multi"):
+        topo = draw(g1_nodes(3, 7, default_on_edge=0.1))
+        nfail = draw(st.sampled_from([0, 0, 1, 1, 2]))
+        fail_idx = draw(st.permutations(list(range(len(topo)))))[:nfail]
+        for i in fail_idx:
+            topo[i] = {**topo[i], "fail": "always", "fail_empty": draw(st.booleans())}
+        for n in topo:
+            if prob(draw, 0.25):
+                n["cache"] = True
+        if kind == "g1nest":
+            outer, hidden, inactive = draw(nest_spec(topo, draw(st.sampled_from([1, 2, 3])), {}, permute_names=False))
+            c["nodes"] = draw(permuted(outer))
+            c["wrapper_graph"] = {f"sub{i}": f"sub{i}" for i in range(4)}
+        elif kind == "g1multi":
+            outer, wg = draw(multi_nest(topo))
+            c["nodes"] = draw(permuted(outer))
+            c["wrapper_graph"] = wg
+        else:
+            c["nodes"] = draw(permuted(topo))
+    elif kind == "g2":
+        c["nodes"], _ = draw(g2_nodes(max_nodes=5, p_fail=0.3))
+        for n in c["nodes"]:
+            if n["k"] in ("func", "ifelse") and prob(draw, 0.25):
+                n["cache"] = True
+            if n.get("fail") and draw(st.booleans()):
+                n["fail_empty"] = True
+    else:
+        c["loop"] = {"k": draw(st.integers(1, 3)), "form": draw(st.sampled_from(["while", "dowhile", "signal"])), "gate": draw(st.sampled_from(["ifelse", "route"])),
+                     "exit": draw(st.sampled_from(["END", "node"])), "dopen": True, "limit": draw(st.integers(0, 4)), "step": 1, "start": 0,
+                     "limit_input": False, "step_input": False, "acc": prob(draw, 0.3), "nested": prob(draw, 0.4), "limit_off": 0, "entry": 0}
+        if c["loop"]["nested"]:
+            c["loop"]["k"] = 1
+            c["wrapper_graph"] = {"loop": "loop"}
+    c["method"] = draw(st.sampled_from(["run", "run", "map", "mapnode"])) if kind != "loop" else "run"
+    c["nitems"] = draw(st.integers(1, 3))
+    c["error_handling"] = draw(st.sampled_from(["raise", "continue"]))
+    c["runner"] = draw(st.sampled_from(["sync", "async", "sched"]))
+    c["sched"] = draw(st.lists(st.integers(0, 7), max_size=40))
+    c["runs"] = draw(st.sampled_from([1, 1, 2]))  # a second run on the same runner hits the cache
+    c["select"] = draw(st.lists(st.integers(0, 9), min_size=1, max_size=2)) if prob(draw, 0.3) else None
+    c["on_missing"] = draw(st.sampled_from(["ignore", "warn", "error"]))
+    c["max_iter"] = draw(st.sampled_from([4, 10, 25]))
+    c["omit_required"] = prob(draw, 0.08)
+    return c
